@@ -1640,7 +1640,10 @@ class I(IndependentSource):
             mna._Is[n2] -= I
 
     def _ss_model(self):
-        return self._netmake(args=self.cpt.isc, ignore_keyword=True)
+        # Use a symbol for the source value; substituting the value itself
+        # is fragile (sympy matches e.g. -Heaviside(t) only partially).
+        return self._netmake(args='i_%s(t)' % self.relname,
+                             ignore_keyword=True)
 
     def _s_model(self, kind):
         return self._netmake(args=self.Isc.laplace(), ignore_keyword=True)
@@ -2342,7 +2345,10 @@ class V(IndependentSource):
         mna._Es[m] += V
 
     def _ss_model(self):
-        return self._netmake(args=self.cpt.voc, ignore_keyword=True)
+        # Use a symbol for the source value; substituting the value itself
+        # is fragile (sympy matches e.g. -Heaviside(t) only partially).
+        return self._netmake(args='v_%s(t)' % self.relname,
+                             ignore_keyword=True)
 
     def _s_model(self, kind):
         return self._netmake(args=self.cpt.Voc.laplace(), ignore_keyword=True)
